@@ -272,6 +272,29 @@ func (g *gen) metricsEntry(s *sut, content string) PEntry {
 	return PEntry{Src: aMetricsUser, TArea: aMetricsUser, Content: s.register(aMetricsUser, "", content), Decodable: true}
 }
 
+// file names that leave their directory for a sibling sharing its name as a string prefix
+var siblingName = map[int]string{aFlows: "../flows-disabled/x.yaml", aQuotas: "../quotas-old/q.yaml", aPathParams: "../path_params.bak/p.yaml"}
+
+// a content that is fine for the field, should an implementation keep the file
+func siblingContent(src, v int) string {
+	switch src {
+	case aFlows:
+		return flowYAML("x.yaml", v)
+	case aQuotas:
+		return quotaYAML("q.yaml", v)
+	}
+	return pathParamsYAML("p.yaml", v)
+}
+
+// where a name of a directory field lands, relative to the configuration root (area outside)
+func (s *sut) siblingRel(src int, name string) string {
+	a, r := s.classify(filepath.Join(s.dirOf(src), name))
+	if a != aOutside {
+		panic("sibling name " + name + " does not leave its directory")
+	}
+	return r
+}
+
 type triple struct {
 	label   string
 	handler string
@@ -386,6 +409,39 @@ func (g *gen) fixed(s *sut) []triple {
 			g.dirEntry(s, aPathParams, "a", pathParamsYAML("a.yaml", 1), true),
 			g.dirEntry(s, aPathParams, "a/b.yaml", pathParamsYAML("b.yaml", 1), true)}})
 	}
+	// names that climb out of their directory into a SIBLING whose name starts with the
+	// directory's name as a string (cfg/flows-disabled next to cfg/flows, cfg/quotas-old,
+	// cfg/path_params.bak, the plain file cfg/flows.bak): not below the directory, although
+	// the joined path has the directory's path as a string prefix.  The sibling exists
+	// (and holds a file the name points at) or not; the update is refused at a later step
+	// (validation, metrics reload, an injected fault) or is otherwise fine
+	withSiblings := func(srcs ...int) []Ent {
+		d := g.baseDisk(s, 1)
+		for _, src := range srcs {
+			d = append(d, g.ent(s, aOutside, s.siblingRel(src, siblingName[src]), fmt.Sprintf("parked: %s\n", areaName[src])))
+		}
+		sortEnts(d)
+		return d
+	}
+	sib := func(src, v int) PEntry { return g.dirEntry(s, src, siblingName[src], siblingContent(src, v), true) }
+	for _, h := range []string{"configuration", "apply_flows"} {
+		out = append(out, triple{"sibling-prefix-name-existing-dir-bad-flow", h, http.MethodPut, true, withSiblings(aFlows), []PEntry{
+			sib(aFlows, 2), g.flowEntry(s, 1, 2, true), g.badFlowEntry(s, 3, 0)}})
+		out = append(out, triple{"sibling-prefix-name-new-dir-bad-quota", h, http.MethodPut, true, g.baseDisk(s, 1), []PEntry{
+			sib(aQuotas, 1), g.flowEntry(s, 2, 3, true), g.dirEntry(s, aQuotas, quotaRel(2), badQuotaYAML(quotaRel(2)), true)}})
+		out = append(out, triple{"sibling-prefix-name-existing-dir-bad-metrics", h, http.MethodPut, true, withSiblings(aPathParams), []PEntry{
+			sib(aPathParams, 2), g.flowEntry(s, 1, 2, true), g.metricsEntry(s, badMetricsYAML())}})
+		out = append(out, triple{"sibling-prefix-name-new-dir-bad-flow", h, http.MethodPut, true, g.baseDisk(s, 2), []PEntry{
+			sib(aFlows, 1), g.badFlowEntry(s, 2, 1)}})
+		out = append(out, triple{"sibling-prefix-names-existing-dirs-otherwise-fine", h, http.MethodPut, true, withSiblings(aFlows, aQuotas), []PEntry{
+			sib(aFlows, 3), sib(aQuotas, 2), g.flowEntry(s, 2, 2, true)}})
+		out = append(out, triple{"sibling-prefix-name-new-dir-otherwise-fine", h, http.MethodPut, true, g.baseDisk(s, 1), []PEntry{
+			sib(aPathParams, 1), g.ppEntry(s, 1, 2)}})
+		withFile := append(g.baseDisk(s, 1), g.ent(s, aOutside, s.siblingRel(aFlows, "../flows.bak"), "parked: a plain file\n"))
+		sortEnts(withFile)
+		out = append(out, triple{"sibling-prefix-plain-file-name-bad-flow", h, http.MethodPut, true, withFile, []PEntry{
+			g.dirEntry(s, aFlows, "../flows.bak", flowYAML("bak.yaml", 1), true), g.flowEntry(s, 1, 3, true), g.badFlowEntry(s, 2, 0)}})
+	}
 	for _, h := range []string{"configuration", "apply_flows"} {
 		out = append(out, triple{"not-json", h, http.MethodPut, false, g.baseDisk(s, 1), nil})
 		out = append(out, triple{"wrong-method", h, http.MethodPost, true, g.baseDisk(s, 1),
@@ -430,6 +486,15 @@ func (g *gen) random(s *sut) triple {
 			aPathParams: pathParamsYAML("x8.yaml", g.r.Range(1, 3))}[src]
 		t.payload = append(t.payload, g.dirEntry(s, src, name, content, true))
 		t.label = "random-escaping-name"
+	}
+	if g.r.Chance(1, 5) {
+		src := c.Pick(g.r, []int{aFlows, aQuotas, aPathParams})
+		if g.r.Chance(1, 2) { // the sibling exists and holds the file the name points at
+			t.before = append(t.before, g.ent(s, aOutside, s.siblingRel(src, siblingName[src]), fmt.Sprintf("parked: %s\n", areaName[src])))
+			sortEnts(t.before)
+		}
+		t.payload = append(t.payload, g.dirEntry(s, src, siblingName[src], siblingContent(src, g.r.Range(1, 3)), true))
+		t.label = "random-sibling-prefix-name"
 	}
 	if g.r.Chance(1, 6) {
 		v := g.r.Range(1, 3)
